@@ -249,6 +249,9 @@ func (x *Exec) rangeCall(st *State, m Term, kt, vt types.Type, fval Val, k func(
 		x.oblige(st, lname+".entry"+invLabel(inv, i), nil, evalInv(st, inv, emptyVisited, 1), "Range invariant on entry: "+inv.Src)
 	}
 	// havoc cells written by the closure body and declared heap locations
+	entryWM := st.wmNow()
+	x.loopEntryWM = entryWM
+	st.bumpWM() // earlier iterations may have allocated
 	x.havocClosureWrites(st, clo)
 	x.havocLocs(st, fr, spec.Modifies, nil)
 	visited := st.fresh("visited", ArrSort(SI, SB))
@@ -284,6 +287,7 @@ func (x *Exec) rangeCall(st *State, m Term, kt, vt types.Type, fval Val, k func(
 			for i, inv := range spec.Invariants {
 				x.oblige(st2, lname+".preserved"+invLabel(inv, i), nil, evalInv(st2, inv, nv, 1), "Range invariant preserved: "+inv.Src)
 			}
+			x.loopEntryWM = entryWM
 			x.frameCheck(st2, st2.top(), base, baseWM, spec.Modifies, base, lname+".frame")
 		}
 		if stStop != nil {
